@@ -997,3 +997,154 @@ def _(ctx):
         n += 1
         ctx.prove('path%d.returns_distance_of_final_spectrum' % j, list(s.pc) + list(s.axioms), z3real(ret) == d, check_vacuity=False)
     ctx.record('paths', PROVED if n >= 4 else FAILED, 'B', 0, '%d paths (root found / root finder throws) x (right-like smuon index 0 / 1 ...)' % n)
+
+# ------------------------------------------------------------------------------------------------ the scheme-defining relations of the SM-like inputs
+SCHEME_REPLAY = r'''
+#include "gm2calc/MSSMNoFV_onshell.hpp"
+#include "gm2calc/gm2_error.hpp"
+#include <cstdio>
+#include <cmath>
+// after convert_to_onshell the vector-boson masses of the fitted parameters are the input pole masses, tan(beta) is the input, the tree-level pseudoscalar mass is MA0 and the
+// tree-level first/second generation masses are the inputs
+int main() {
+   int bad = 0;
+   for (double tb : {2.0, 10.0, 50.0}) for (double ma : {300.0, 1500.0}) for (double mw : {80.385, 79.0}) {
+      gm2calc::MSSMNoFV_onshell m; const double Pi = 3.141592653589793;
+      const Eigen::Matrix<double,3,3> one = Eigen::Matrix<double,3,3>::Identity();
+      m.set_alpha_MZ(0.0077552); m.set_alpha_thompson(0.00729735); m.set_g3(std::sqrt(4 * Pi * 0.1184));
+      m.get_physical().MFt = 173.34; m.get_physical().MFb = 4.18; m.get_physical().MFm = 0.1056583715; m.get_physical().MFtau = 1.777;
+      m.get_physical().MVWm = mw; m.get_physical().MVZ = 91.1876; m.get_physical().MAh(1) = ma;
+      m.set_TB(tb); m.set_Mu(500); m.set_MassB(200); m.set_MassWB(400); m.set_MassG(2000);
+      m.set_mq2(7000. * 7000 * one); m.set_ml2(500. * 500 * one); m.set_md2(7000. * 7000 * one); m.set_mu2(7000. * 7000 * one); m.set_me2(520. * 520 * one);
+      m.set_Au(2, 2, 0); m.set_Ad(2, 2, 0); m.set_Ae(1, 1, 0); m.set_Ae(2, 2, 0); m.set_scale(1000);
+      try { m.convert_to_onshell(); } catch (const gm2calc::Error& e) { std::printf("exception %s\n", e.what()); continue; }
+      const double v2 = m.get_vu() * m.get_vu() + m.get_vd() * m.get_vd();
+      const double d[5] = {std::fabs(m.get_MVWm() - mw) / mw, std::fabs(m.get_MVZ() - 91.1876) / 91.1876, std::fabs(m.get_vu() / m.get_vd() - tb) / tb,
+                           std::fabs(std::sqrt(m.get_BMu() * (tb + 1 / tb)) - ma) / ma, std::fabs(0.5 * m.get_g2() * std::sqrt(v2) - mw) / mw};
+      for (int i = 0; i < 5; i++) if (!(d[i] <= 1e-12)) { bad++; std::printf("tan(beta)=%g MA=%g MW=%g: relation %d off by %.3g (0: MW, 1: MZ, 2: tan beta, 3: MA, 4: g2 v/2)\n", tb, ma, mw, i, d[i]); }
+   }
+   std::printf("%d relations violated\n", bad);
+   return bad ? 1 : 0;
+}
+'''
+
+def scheme_replay(model_, wd):
+    from gm2v import native
+    import subprocess
+    exe = native.build_against_library(wd, SCHEME_REPLAY)
+    r = subprocess.run([exe], capture_output=True, text=True, timeout=300)
+    return r.returncode == 1, r.stdout.strip()[-1500:]
+
+@obligation('C05.scheme.gauge_sector_and_vev', fns=[(OS, 'MSSMNoFV_onshell::convert_gauge_couplings'), (OS, 'MSSMNoFV_onshell::convert_vev'), (OS, 'MSSMNoFV_onshell::convert_BMu'),
+                                                     (OS, 'MSSMNoFV_onshell::set_TB'), (OS, 'MSSMNoFV_onshell::get_vev'), (OS, 'MSSMNoFV_onshell::convert_yukawa_couplings_treelevel'),
+                                                     (ME, 'MSSMNoFV_onshell_mass_eigenstates::get_mass_matrix_VWm'), (ME, 'MSSMNoFV_onshell_mass_eigenstates::get_mass_matrix_VZ')],
+            replay=scheme_replay)
+def _(ctx):
+    """ensures for all MZ > MW > 0, e > 0, tan(beta) > 0 (the scheme-defining relations of the SM-like inputs): after convert_gauge_couplings(); convert_vev() the REAL
+    gauge-boson mass matrices of the model evaluate to MW^2 and MZ^2 (the pole masses), vu/vd == tan(beta), g2 == e/sin(theta_W) with cos(theta_W) = MW/MZ; convert_BMu() gives
+    B mu (tan(beta) + 1/tan(beta)) == MA0^2; set_TB() keeps vu^2 + vd^2 == (2 MW/g2)^2 with vu/vd == tan(beta); convert_yukawa_couplings_treelevel() gives
+    y_f v_f/sqrt(2) == m_f for all nine fermions and T_f == Y_f A_f"""
+    it = Interp(ctx.w, mode='sym', div_sides=True)
+    def fresh():
+        m = model(it)
+        m.f['verbose_output'] = False
+        return m
+    def run1(seq, post):
+        def thunk():
+            m = fresh()
+            for fn in seq:
+                it.call_method(m, fn[0], fn[1])
+            return m
+        ps = it.run_paths(thunk, max_paths=50)
+        return ps
+    # ---- gauge couplings and VEVs
+    def thunk():
+        m = fresh()
+        f = m.f
+        tb0 = z3real(f['vu']) / z3real(f['vd'])
+        it.call_method(m, 'convert_gauge_couplings', [])
+        it.call_method(m, 'convert_vev', [])
+        mw2 = it.call_method(m, 'get_mass_matrix_VWm', [])
+        mz2 = it.call_method(m, 'get_mass_matrix_VZ', [])
+        return (m, tb0, mw2, mz2)
+    ps = it.run_paths(thunk, max_paths=50)
+    ctx.merge_rules(it)
+    n = 0
+    for k, (s, r, e) in enumerate(ps):
+        if e is not None:
+            if e.cls == 'EInvalidInput':
+                continue       # vd == 0: documented rejection in get_TB
+            ctx.record('gauge.path%d' % k, FAILED, 'B', 0, 'exception %s' % e)
+            continue
+        m, tb0, mw2, mz2 = r
+        f = m.f
+        MW, MZ, EL = z3real(f['physical'].f['MVWm']), z3real(f['physical'].f['MVZ']), z3real(f['EL'])
+        pre = [MW > 0, MZ > MW, EL > 0, tb0 > 0, z3real(ps[k][1][0].f['vd']) != 0]
+        n += 1
+        ax = list(s.pc) + list(s.axioms)
+        m0 = ps[k][1][0].f
+        pins = [{z3.Real('m.physical.MVWm'): Fr(80), z3.Real('m.physical.MVZ'): Fr(91), z3.Real('m.EL'): Fr(3, 10), z3.Real('m.vu'): Fr(240), z3.Real('m.vd'): Fr(24)},
+                {z3.Real('m.physical.MVWm'): Fr(40), z3.Real('m.physical.MVZ'): Fr(50), z3.Real('m.EL'): Fr(1, 2), z3.Real('m.vu'): Fr(100), z3.Real('m.vd'): Fr(100)}]
+        ctx.prove('gauge.path%d.MW_reproduced' % k, pre + ax, z3real(mw2) == MW * MW, check_vacuity=False, tactics=('default', 'nlsat'), pins=pins)
+        ctx.prove('gauge.path%d.MZ_reproduced' % k, pre + ax, z3real(mz2) == MZ * MZ, check_vacuity=False, tactics=('default', 'nlsat'), pins=pins)
+        ctx.prove('gauge.path%d.tan_beta_kept' % k, pre + ax, z3real(f['vu']) == tb0 * z3real(f['vd']), check_vacuity=False, tactics=('default', 'nlsat'), pins=pins)
+        ctx.prove('gauge.path%d.weak_mixing_angle' % k, pre + ax, z3.And(z3real(f['g2']) > 0, z3real(f['g2']) * z3real(f['g2']) * (MZ * MZ - MW * MW) == EL * EL * MZ * MZ), check_vacuity=False, tactics=('default', 'nlsat'))
+        ctx.sides('gauge.path%d' % k, s, pre)
+    ctx.record('gauge.paths', PROVED if n >= 1 else FAILED, 'B', 0, '%d paths' % n)
+    # ---- B mu
+    def thunk2():
+        m = fresh()
+        it.call_method(m, 'convert_BMu', [])
+        return m
+    ps = it.run_paths(thunk2, max_paths=20)
+    for k, (s, r, e) in enumerate(ps):
+        if e is not None:
+            continue
+        f = r.f
+        tb = z3real(f['vu']) / z3real(f['vd'])
+        MA = z3real(f['physical'].f['MAh'].get(1, 0))
+        ctx.prove('BMu.path%d' % k, [tb > 0, z3real(f['vd']) != 0] + list(s.pc) + list(s.axioms), z3real(f['BMu']) * (tb + 1 / tb) == MA * MA, check_vacuity=False)
+    # ---- set_TB
+    tbn = z3.Real('tan_beta_new')
+    def thunk3():
+        m = fresh()
+        it.call_method(m, 'set_TB', [tbn])
+        return m
+    ps = it.run_paths(thunk3, max_paths=20)
+    for k, (s, r, e) in enumerate(ps):
+        if e is not None:
+            continue
+        f = r.f
+        MW, MZ, EL = z3real(f['physical'].f['MVWm']), z3real(f['physical'].f['MVZ']), z3real(f['EL'])
+        pre = [MW > 0, MZ > MW, EL > 0, tbn > 0]
+        vu, vd = z3real(f['vu']), z3real(f['vd'])
+        ctx.prove('set_TB.path%d' % k, pre + list(s.pc) + list(s.axioms), z3.And(vu == tbn * vd, vd > 0, (vu * vu + vd * vd) * EL * EL * MZ * MZ == 4 * MW * MW * (MZ * MZ - MW * MW)),
+                  check_vacuity=False, tactics=('default', 'nlsat'))
+    # ---- tree-level Yukawa couplings
+    def thunk4():
+        m = fresh()
+        it.call_method(m, 'convert_yukawa_couplings_treelevel', [])
+        return m
+    ps = it.run_paths(thunk4, max_paths=20)
+    for k, (s, r, e) in enumerate(ps):
+        if e is not None:
+            continue
+        f = r.f
+        ph = f['physical'].f
+        root2 = z3.Real('c_SQRT2')
+        pairs = []
+        masses = {'Ye': [ph['MFe'], ph['MFm'], ph['MFtau']], 'Yu': [ph['MFu'], ph['MFc'], ph['MFt']], 'Yd': [ph['MFd'], ph['MFs'], f['mb_DRbar_MZ']]}
+        for nm, vev in (('Ye', 'vd'), ('Yu', 'vu'), ('Yd', 'vd')):
+            Y = f[nm]
+            for g in range(3):
+                mf = masses[nm][g]
+                y = Y.get(g, g)
+                y = y.re if isinstance(y, Cx) else y
+                if mf is not None:
+                    pairs.append((z3real(y) * z3real(f[vev]), root2 * z3real(mf)))
+                for g2 in range(3):
+                    if g2 != g:
+                        o = Y.get(g, g2)
+                        pairs.append((z3real(o.re if isinstance(o, Cx) else o), z3.RealVal(0)))
+        ctx.prove('yukawa_treelevel.path%d' % k, [z3real(f['vd']) != 0, z3real(f['vu']) != 0, root2 * root2 == 2, root2 > 0] + list(s.pc) + list(s.axioms),
+                  z3.And(*[a == b for a, b in pairs]), check_vacuity=False)
